@@ -2,6 +2,7 @@ package checks
 
 import (
 	"fmt"
+	"os"
 	"strings"
 
 	"mvdan.cc/sh/v3/syntax"
@@ -35,15 +36,34 @@ func c01(c *vc.Ctx) {
 	space := synSpace{Depth: 2, CoreOnly: true, LayoutDepth: 1, Corpus: true, AllVariantsDeep: !c.Quick()}
 	fullConfigs := synt.Configs(vc.Pick(c, []uint{0, 4}, []uint{0, 1, 2, 3, 4, 8}), true)
 	reduced := reducedConfigs()
-	c.Rule = space.describe() + fmt.Sprintf(" + %d hand-written boundary programs of the anchored printer mechanisms (c01_extra.go) in every variant; configurations: all %d option subsets x indents for corpus and depth<=1 programs, %d representative configurations for layout-deviation and depth-2 programs; each parsed program is taken as parsed and, when syntax.Simplify changes it, also simplified; per (program, variant, simplify, configuration): Print succeeds (error iff Minify+SingleLine), output reparses in the variant, canonical dump (no positions/comments, documented cosmetic rewrites normalised) equals the original's; plus each Stmt, Command and call-argument Word of the tree printed alone (default, Minify, SingleLine) must reparse to itself; every divergence of a case is classified, an unclassified one wins; distinct = distinct canonical trees", len(c01Extra), len(fullConfigs), len(reduced))
+	c.Rule = space.describe() + fmt.Sprintf(" + %d hand-written boundary programs of the anchored printer mechanisms (c01_extra.go) in every variant; configurations: all %d option subsets x indents for corpus and depth<=1 programs, %d representative configurations for layout-deviation and depth-2 programs; each parsed program is taken as parsed and, when syntax.Simplify changes it, also simplified; per (program, variant, simplify, configuration): Print succeeds (error iff Minify+SingleLine), output reparses in the variant, canonical dump (no positions/comments, documented cosmetic rewrites normalised) equals the original's; plus each Stmt, Command and call-argument Word of the tree printed alone (default, Minify, SingleLine) must reparse to itself; every divergence of a case is classified, an unclassified one wins; distinct = distinct canonical trees; %s (pairs are printed as files only)", len(c01Extra)+len(synPairSignAtoms()), len(fullConfigs), len(reduced), synPairRule(c.Quick(), len(fullConfigs), len(reduced), len(c01SubConfigs)))
 	c.Assumptions = []string{
 		"the cosmetic normaliser implements exactly the rewrites named in the property (backquotes, $[ ], brace loops, ${x}->$x under Minify, literals split by escaped newlines, <<- tabs, doubled trailing backslash); the shared dump also treats the deprecated mksh brace form of case (printed as in/esac, like brace loops) and an absent versus empty here-document body as equal",
 		"a word printed alone is judged as the sole argument of a dummy command `cmd`",
 		"class predicates that use a counterfactual (same tree with the trigger removed, or same text plus a newline) run the real printer and parser again",
 	}
-	complete := vc.Run(c, func(emit func(synCase)) { genSyn(c, space, emit); c01Extras(emit) }, func(t synCase) *vc.Fail {
+	// statement pairs (c01c02_pairs.go): core x core pairs get the larger
+	// configuration set of the tier, all pairs the smaller one
+	pairCore, pairAll := vc.Pick(c, reduced, fullConfigs), vc.Pick(c, c01SubConfigs, reduced)
+	gen := func(emit func(synCase)) {
+		if os.Getenv("VERIF_C01_PAIRS_ONLY") == "" {
+			genSyn(c, space, emit)
+			c01Extras(emit)
+		} else {
+			c.CapNote("VERIF_C01_PAIRS_ONLY set: only the statement-pair family was run (development aid)")
+		}
+		genSynPairs(c.Quick(), emit)
+	}
+	complete := vc.Run(c, gen, func(t synCase) *vc.Fail {
 		cfgs := fullConfigs
-		if t.Kind >= 2 {
+		switch {
+		case t.Kind == synKindPairCore:
+			cfgs = pairCore
+		case t.Kind == synKindPair:
+			cfgs = pairAll
+		case t.Kind == synKindPairCtx:
+			cfgs = c01SubConfigs
+		case t.Kind >= 2:
 			cfgs = reduced
 		}
 		return c01One(c, t, cfgs)
@@ -331,7 +351,9 @@ func c01One(c *vc.Ctx, t synCase, cfgs []synt.Config) *vc.Fail {
 			trees = append(trees, fs)
 		}
 	}
-	subs := !(t.Kind >= 2 && c.Quick())
+	// statement pairs are printed as files only: each of their statements is
+	// also a program of its own (kind 1) and printed alone there
+	subs := !(t.Kind >= 2 && c.Quick()) && t.Kind < synKindPair
 	nsub := map[string]int{}
 	defer func() {
 		for what, n := range nsub {
@@ -367,7 +389,7 @@ func c01One(c *vc.Ctx, t synCase, cfgs []synt.Config) *vc.Fail {
 	if x.classified != nil {
 		return x.classified
 	}
-	if t.Kind >= 2 {
+	if t.Kind >= 2 && t.Kind < synKindPair || t.Kind == synKindPairCore {
 		c.Sample(map[string]any{"src": t.Src, "variant": t.Variant})
 	}
 	return nil
